@@ -18,7 +18,8 @@ from harness import classgen
 from harness.values import enc
 from harness.errorcheck_run import Loop
 
-ATOMS = [None, True, False, 0, 1, -7, 2 ** 70, -2 ** 63, 0.5, -0.0, 1e308, 5e-324, "", "s", "é", "\u0000x", "𝄞", "0", "null"]
+ATOMS = [None, True, False, 0, 1, -7, 2 ** 70, -2 ** 63, 0.5, -0.0, 1e308, 5e-324, "", "s", "é", "\u0000x", "𝄞", "0", "null",
+         float("inf"), float("-inf")]
 
 
 def atom(rnd):
@@ -77,7 +78,10 @@ class Picky(object):
 
 def unsupported(rnd):
     import threading
-    return rnd.choice([object(), threading.Lock(), (lambda: 1), complex(1, 2), Picky(3), Picky("a"), Ellipsis, iter([1])])
+    import datetime
+    import fractions
+    return rnd.choice([object(), threading.Lock(), (lambda: 1), complex(1, 2), Picky(3), Picky("a"), Ellipsis, iter([1]),
+                       fractions.Fraction(1, 3), datetime.date(2020, 1, 2), datetime.timedelta(seconds=5), range(3)])
 
 
 def call(fn):
@@ -132,10 +136,18 @@ def record(W, orig, cfgd, mode, config, ignore, dumped=None, fail_first=False, i
         d = call(lambda: jsonclass.dump(orig, ignore=ignore, config=config) if ignore is not None else jsonclass.dump(orig, config=config))
     rec["orig_after"] = W.enc(orig)
     rec["dumped"] = {"ok": d["ok"], "v": enc(d["v"]), "exc": d["exc"]}
+
+    def strkeys(v):
+        if isinstance(v, dict):
+            return all(isinstance(k, str) for k in v) and all(strkeys(x) for x in v.values())
+        if isinstance(v, (list, tuple)):
+            return all(strkeys(x) for x in v)
+        return isinstance(v, (str, int, float, bool, type(None)))
+    rec["strkeys"] = bool(d["ok"] and strkeys(d["v"]))
     if d["ok"]:
         # through the JSON text, as it would travel
         try:
-            wire = json.loads(json.dumps(d["v"]))
+            wire = json.loads(jsonrpc.jdumps(d["v"]))      # the library's own JSON backend
             rec["wire_ok"] = True
             if enc(wire) != enc(d["v"]):
                 # non-string keys do not survive a JSON text: load the dumped structure itself
@@ -274,6 +286,8 @@ def run(out, seed, n, mode):
             recs.append(record_failure(W, rnd, config, beans))
         elif mode == "rpc":
             recs.append(record_rpc(W, rnd, config, beans))
+    for r in recs:
+        r.setdefault("strkeys", False)
     json.dump(recs, open(out, "w"))
     print(len(recs))
 
@@ -360,6 +374,14 @@ def record_rpc(W, rnd, config, beans):
     rec["orig_after"] = W.enc(orig)
     d = call(lambda: jsonclass.dump(orig, config=config))
     rec["dumped"] = {"ok": d["ok"], "v": enc(d["v"]), "exc": d["exc"]}
+
+    def strkeys(v):
+        if isinstance(v, dict):
+            return all(isinstance(k, str) for k in v) and all(strkeys(x) for x in v.values())
+        if isinstance(v, (list, tuple)):
+            return all(strkeys(x) for x in v)
+        return isinstance(v, (str, int, float, bool, type(None)))
+    rec["strkeys"] = bool(d["ok"] and strkeys(d["v"]))
     rec["wire_ok"] = True
     rec["loadin"] = rec["loadin_after"] = enc(None)
     # "loaded" is what the remote callable received; "returned" what came back to the caller
